@@ -155,6 +155,13 @@ func cmdCheck(args []string) {
 		}
 	}
 	SolveAll(items, vcDir, 16, quickSec, slowSec, cross)
+	if *prop == "C16" {
+		cr := e.raceClosureObligations()
+		results = append(results, cr)
+		for _, o := range cr.Obls {
+			owner[o] = cr
+		}
+	}
 
 	// vacuity: the assumptions of every function must be satisfiable together with some exit
 	vac := map[string]string{}
@@ -540,6 +547,12 @@ func runOracle(repo, oracleDir, prop string, seed int64, tier string) (bool, str
 		to = "600s"
 	}
 	args := []string{"test", "-v", "-overlay", ovf, "-vet=off", "-count=1", "-timeout", to, "-run", "TestVerifOracle_" + prop}
+	for _, f := range files {
+		if strings.Contains(filepath.Base(f), "_race_") {
+			args = append(args[:1], append([]string{"-race"}, args[1:]...)...)
+			break
+		}
+	}
 	for p := range pkgs {
 		args = append(args, p)
 	}
